@@ -368,10 +368,12 @@ class GenericArrayView final {
 
 // Optionally prints a shorthand representation of a BitArray in a comment.
 template <class ElementView, class BufferType, ::std::size_t kElementSize,
-          ::std::size_t kAddressableUnitSize, class Stream>
+          ::std::size_t kAddressableUnitSize, class Stream,
+          typename... ElementViewParameterTypes>
 void WriteShorthandArrayCommentToTextStream(
     const GenericArrayView<ElementView, BufferType, kElementSize,
-                           kAddressableUnitSize> *array,
+                           kAddressableUnitSize,
+                           ElementViewParameterTypes...> *array,
     Stream *stream, const TextOutputOptions &options) {
   // Intentionally empty.  Overload for specific element types.
   // Avoid unused parameters error:
